@@ -98,7 +98,80 @@ def run(tier="quick", seed=0):
         check(t, "mix", around(t))
         if i < 2:
             samples.append({"targets": {"%d,%d" % k: sorted(v) for k, v in t.items()}, "pairs": ["%08x:%05x" % p for p in compress_flood_fill_regions(t)]})
+    # (d) the single-chip / single-block word: every chip x every level, read with the documented meaning
+    from rig.machine_control.regions import get_region_for_chip
+    step = 1 if tier != "quick" else 1
+    for lvl in range(4):
+        s_ = 6 - 2 * lvl
+        size = 4 << s_          # side of the level's block in chips
+        sub = 1 << s_           # side of one of its 16 sub-blocks
+        for x in range(0, 256, step):
+            for y in range(0, 256, step):
+                ev += 1
+                w = get_region_for_chip(x, y, lvl)
+                bx, by = x & ~(size - 1) & 0xff, y & ~(size - 1) & 0xff
+                bit = ((x - bx) // sub) + 4 * ((y - by) // sub)
+                want_w = (bx << 24) | (by << 16) | (lvl << 16) | (1 << bit)
+                if w != want_w and len(viol) < 6:
+                    viol.append({"id": "word_%d_%d_%d" % (x, y, lvl), "clause": "single_chip_word",
+                                 "why": "get_region_for_chip(%d, %d, %d) = %#010x; the word selecting exactly the level-%d sub-block of that chip is %#010x" % (x, y, lvl, w, lvl, want_w),
+                                 "inputs": {"x": x, "y": y, "level": lvl}})
+                elif lvl == 3 and not selects(w, x, y) and len(viol) < 6:
+                    viol.append({"id": "word_%d_%d" % (x, y), "clause": "single_chip_word", "why": "the word does not select its own chip", "inputs": {"x": x, "y": y, "level": lvl}})
+    distinct += 4 * 65536
+    # (e) the order in which the pairs are SENT: the real flood_fill_aplx with a recording transport
+    import os
+    import tempfile
+    import rig.machine_control.machine_controller as mcm
+    from rig.machine_control.consts import SCPCommands, NNCommands
+    tmpd = tempfile.mkdtemp(prefix="c12_")
+    try:
+        path = os.path.join(tmpd, "a.aplx")
+        with open(path, "wb") as f:
+            f.write(bytes(range(64)))
+        mc = mcm.MachineController.__new__(mcm.MachineController)
+        from rig.utils.contexts import ContextMixin, Required
+        ContextMixin.__init__(mc, {"app_id": 30, "x": Required, "y": Required, "p": Required})
+        mc._scp_data_length = 256
+        mc._nn_id = 0
+        sent = []
+        mc._send_scp = lambda x, y, p, cmd, arg1=0, arg2=0, arg3=0, data=b"", expected_args=3, timeout=0.0: sent.append((int(cmd), arg1, arg2, arg3))
+        mc.read_struct_field = lambda *a, **k: 0x67800000
+        cases = []
+        for (bx, by) in ((0, 0), (200, 100), (63, 63)):
+            for cores_a, cores_b in (({17}, {1}), ({1}, {1, 5, 16}), ({16, 17}, {0}), ({2}, {3})):
+                cases.append({(bx, by): set(cores_a), (bx + 1, by): set(cores_b)})
+                cases.append({(bx, by): set(cores_a), (bx, by + 1): set(cores_b), (bx + 1, by + 1): {17}})
+        for i in range(40 if tier == "quick" else 400):
+            t = {}
+            bx, by = rng.choice([0, 4, 60, 200]), rng.choice([0, 4, 60, 100])
+            for _ in range(rng.randint(2, 6)):
+                t.setdefault((bx + rng.randint(0, 4), by + rng.randint(0, 4)), set()).update(rng.sample(range(18), rng.randint(1, 3)) + ([rng.choice((16, 17))] if rng.random() < .5 else []))
+            cases.append(t)
+        for t in cases:
+            ev += 1
+            del sent[:]
+            try:
+                mc.flood_fill_aplx(path, t, app_id=30, wait=True)
+            except Exception as e:      # noqa
+                if len(viol) < 6:
+                    viol.append({"id": "send_%d" % ev, "clause": "pairs_sent_in_order", "why": "flood_fill_aplx raised %s: %s" % (type(e).__name__, e),
+                                 "inputs": {"targets": {"%d,%d" % k: sorted(v) for k, v in t.items()}}})
+                continue
+            sel = [(a2, a1 & 0x3ffff) for (c, a1, a2, a3) in sent if c == int(SCPCommands.nearest_neighbour_packet) and (a1 >> 24) == int(NNCommands.flood_fill_core_select)]
+            want_pairs = sorted(compress_flood_fill_regions(t), key=lambda rc: (rc[0] << 32) | rc[1])
+            why = None
+            if sorted(sel) != sorted(want_pairs):
+                why = "the core-select packets sent %r are not the pairs produced %r" % (["%08x:%05x" % q for q in sel], ["%08x:%05x" % q for q in want_pairs])
+            elif sel != want_pairs:
+                why = "core-select packets sent out of order: %r (increasing order: %r)" % (["%08x:%05x" % q for q in sel], ["%08x:%05x" % q for q in want_pairs])
+            if why and len(viol) < 6:
+                viol.append({"id": "send_%d" % ev, "clause": "pairs_sent_in_order", "why": why, "inputs": {"targets": {"%d,%d" % k: sorted(v) for k, v in t.items()}}})
+            distinct += 1
+    finally:
+        import shutil
+        shutil.rmtree(tmpd, ignore_errors=True)
     return {"name": "c12_regions", "evaluations": ev, "distinct_nontrivial": distinct,
-            "rule": "compress_flood_fill_regions decoded by an independent reading of the region word: all subsets of 2x2 chips x cores {1,17} at six positions (incl. level boundaries); full, one-short, full+sparse-second-core and full+outside blocks of 1, 4, 16, 64 chips square for three core pairs at two positions; seeded mixes of neighbouring chips with different core sets; checks nothing missing, nothing extra (neighbouring chips probed), nothing twice, strictly increasing (region<<32|mask), well formed",
+            "rule": "compress_flood_fill_regions decoded by an independent reading of the region word: all subsets of 2x2 chips x cores {1,17} at six positions (incl. level boundaries); full, one-short, full+sparse-second-core and full+outside blocks of 1, 4, 16, 64 chips square for three core pairs at two positions; seeded mixes of neighbouring chips with different core sets; checks nothing missing, nothing extra (neighbouring chips probed), nothing twice, strictly increasing (region<<32|mask), well formed; get_region_for_chip for every chip x level against the documented word; the core-select packets the real flood_fill_aplx sends (recording transport) for two/three-chip targets with cores 16/17 and seeded mixes: the pairs produced, in increasing order",
             "bound": "structured families listed in the rule; %d seeded mixes" % (300 if tier == "quick" else 3000), "exhaustive": False,
             "label": "bounded", "samples": samples, "violations": viol, "seconds": round(time.time() - t0, 2)}
